@@ -1171,6 +1171,22 @@ theorem C01_sub_budget_covers_source {song : Song} {m : SAMap} {srcT srcStart : 
 extracted from the C++ on every run) -/
 theorem C01_src_stack_le_limit : maxSrcStack ≤ (limit : Int) := by decide
 
+/-- **`analyze_stack` marks the unused macro tracks after the loop over all tracks** (the shape of the
+repair of D28, repository fix 6fc8560).  A normal return `m` of `analyze_stack` is the map `m0` the
+first loop leaves — every track analysed, each unused root (a track with id > 15 whose `base_usage`
+was still 0 when the loop reached it) collected in `unused` — with `base_usage = 100` on exactly the
+collected ids: every other analyser, and the `parsing` flag, `max_usage` and stack list of the
+collected ones, are as the first loop left them.  In particular no `base_usage` is overwritten
+while the analysis is still running: a later caller always sees the base usage the calls gave. -/
+theorem C01_analyzeStack_marks_after {song : Song} {m : SAMap} (h : analyzeStack song = .ok m) :
+    ∃ m0 unused, song.tracks.foldlM (analyzeStackStep song) ([], []) = .ok (m0, unused) ∧
+      (∀ k ∈ unused, getSA m k = { getSA m0 k with baseUsage := unusedBase }) ∧
+      (∀ k, k ∉ unused → getSA m k = getSA m0 k) := by
+  obtain ⟨m0, u, h1, -, hm⟩ := analyzeStack_ok h
+  refine ⟨m0, u, h1, fun k hk => ?_, fun k hk => ?_⟩
+  · rw [hm, getSA_markUnused, if_pos hk]
+  · rw [hm, getSA_markUnused, if_neg hk]
+
 /-- the stack analysis is right about the period of the match `bm`: if every event of
 `[position, loopPosition)` passes the stack test of `find_match`, the period has one stack frame of
 headroom in every performance that reaches it — the song validates with the period wrapped in one
@@ -1181,11 +1197,12 @@ def StackSoundAt (song : Song) (m : SAMap) (bm : Match) : Prop :=
     validAll (setTrack song bm.trackId (wrapTrack src bm.position bm.loopPosition)) = true
 
 /-- **Every loop fold the modelled optimiser performs keeps every track within the depth limit** —
-the statement without side condition on the stack analysis.  NOT proved, and false of the current
-code in this generality: the lists `analyze_stack` computes underestimate the depth of a track that is
-reached only through a chain of unused macro tracks with descending ids (finding D28, DESIGN.md;
-replayed on the real code).  `C01_fold_keeps_depth_partial` proves it with the hypothesis
-`StackSoundAt song m bm`. -/
+the statement without side condition on the stack analysis.  NOT proved.  It was false of the code
+before repository fix 6fc8560 (finding D28: the lists `analyze_stack` computed underestimated the depth
+of a track reached only through a chain of unused macro tracks with descending ids; `Ex2.D28_witness`
+keeps the old answer as a witness, `Ex2.D28_regression` is the repaired analysis on the same song); no
+counterexample is known for the repaired code (family `d28-chain` of checks/c01.py).
+`C01_fold_keeps_depth_partial` proves it with the hypothesis `StackSoundAt song m bm`. -/
 def C01_fold_keeps_depth_full_statement : Prop :=
   ∀ (song : Song) (m : SAMap) (bm : Match) (subId : Int), SongWF song → validAll song = true →
     analyzeStack song = .ok m → (∃ srcT srcPos, findMatch song m srcT srcPos = .ok bm) → bm.loopLength ≠ 0 →
@@ -1361,10 +1378,32 @@ theorem analyzeStack_fuel_artefact : analyzeStack songA = .error .fuel := by
   have w3 : wrap16 3 = 3 := by decide
   have w4 : wrap16 4 = 4 := by decide
   have w5 : wrap16 5 = 5 := by decide
-  simp [analyzeStack_eq, List.foldlM, asBody, songA, analyzeTrack.eq_2, go_cons, stepR, calleeR, analyzeTrack.eq_1,
+  simp [analyzeStack, analyzeStackStep, List.foldlM, songA, analyzeTrack.eq_2, go_cons, stepR, calleeR, analyzeTrack.eq_1,
     jmp, usage0, k1, k2, k3, j1, j2, getSA, setSA, List.lookup, Song.track?, w1, w2, w3, w4, w5]
 
 example : ¬ SongI16 songA := by decide
+
+/-- `C01_analyzeStack_marks_after` on a song that is one unused macro track: it is analysed (its list
+is complete) and marked -/
+def songM : Song := { tracks := [(20, [n 2, n 3])] }
+
+theorem analyzeStack_songM : analyzeStack songM =
+    .ok [(20, { baseUsage := 100, eventList := [0, 0] })] := by
+  have j1 : ev_NOTE ≠ ev_LOOP_START := by decide
+  have j2 : ev_NOTE ≠ ev_JUMP := by decide
+  have j3 : ev_NOTE ≠ ev_DRUM_MODE := by decide
+  have j4 : ev_NOTE ≠ ev_LOOP_END := by decide
+  have w0 : wrap16 0 = 0 := by decide
+  have u1 : unusedBase = 100 := by decide
+  have f1 : Tables.opt_first_macro_above = 15 := by decide
+  simp [analyzeStack, analyzeStackStep, markUnused, List.foldlM, songM, analyzeTrack.eq_2, go_cons, stepR,
+    analyzeTrack.go.eq_1, n, usage0, j1, j2, j3, j4, getSA, setSA, List.lookup, w0, u1, f1]
+
+example : ∃ m0 unused, songM.tracks.foldlM (analyzeStackStep songM) ([], []) = .ok (m0, unused) ∧
+    (∀ k ∈ unused, getSA [(20, { baseUsage := 100, eventList := [0, 0] })] k =
+      { getSA m0 k with baseUsage := unusedBase }) ∧
+    (∀ k, k ∉ unused → getSA [(20, { baseUsage := 100, eventList := [0, 0] })] k = getSA m0 k) :=
+  C01_analyzeStack_marks_after analyzeStack_songM
 
 theorem freshL : FreshInv songL 15000 := ⟨by decide, by decide, by decide⟩
 theorem freshS : FreshInv songS 15000 := ⟨by decide, by decide, by decide⟩
@@ -1567,16 +1606,20 @@ def mN : SAMap := [(0, { maxUsage := 20, eventList := listN })]
 example : okv ((findBestMatch songN mN 15000).map fun r => (r.1.tracks == songN.tracks, r.2.1.bestScore)) =
     some (true, 0) := by decide +kernel
 
-/-! ### the hypothesis `StackSoundAt` cannot be dropped (finding D28)
+/-! ### the hypothesis `StackSoundAt` is about the map, not a formality (finding D28, repaired)
 
 Ten unused macro tracks `*20 … *29`, each calling the one below it, `*20` calling `*30`; `*30` holds a
-phrase three times.  `analyze_stack` analyses `*20` as a root (base usage 0: `*30` gets base usage 1),
-then marks it unused (`base_usage = 100`); the callers `*21 … *29`, analysed later, find `100` there and
-do not analyse `*20` again, so `*30` keeps base usage 1 although the validator reaches it through
-`*29 → … → *20 → *30` with all ten frames in use.  The fold of `*30` passes the stack test and the
-validator throws "stack overflow (depth limit reached)" on the result.  (`mU` is the map the compiled
-model's `analyzeStack songU` returns; the kernel cannot evaluate the well-founded recursion of
-`analyze_track`.  Replayed on the real code: corpus case "D28" of checks/c01.py.) -/
+phrase three times.  BEFORE repository fix 6fc8560 `analyze_stack` analysed `*20` as a root (base usage 0:
+`*30` gets base usage 1) and marked it unused right away (`base_usage = 100`); the callers `*21 … *29`,
+analysed later, found `100` there and did not analyse `*20` again, so `*30` kept base usage 1 although
+the validator reaches it through `*29 → … → *20 → *30` with all ten frames in use.  The fold of `*30`
+passed the stack test and the validator threw "stack overflow (depth limit reached)" on the result.
+`mU` is the map the unrepaired `analyze_stack` returned (kept as the witness that a map which
+underestimates a base usage breaks the fold: `D28_witness`, `stackSound_needed`); `mU2` is the map the
+compiled model's repaired `analyzeStack songU` returns (the kernel cannot evaluate the well-founded
+recursion of `analyze_track`): `*30` has base usage 10, the period fails the stack test, nothing is
+folded (`D28_regression`).  Replayed on the real code: corpus case "D28" and family `d28-chain` of
+checks/c01.py. -/
 
 def songU : Song := { tracks := [(20, [jmp 30]), (21, [jmp 20]), (22, [jmp 21]), (23, [jmp 22]), (24, [jmp 23]),
   (25, [jmp 24]), (26, [jmp 25]), (27, [jmp 26]), (28, [jmp 27]), (29, [jmp 28]),
@@ -1622,8 +1665,8 @@ theorem D28_witness : validAll songU = true ∧ LoopOK songU mU bmU ∧ ¬ bmU.l
     okv ((applyMatch songU mU bmU 15000).map fun r => validAll r.1) = some false :=
   ⟨by decide +kernel, loopOK_U, by decide, by decide +kernel⟩
 
-/-- hence the stack analysis is not right about this period: `C01_fold_keeps_depth_partial` needs its
-hypothesis -/
+/-- hence a stack analysis that answers `mU` is not right about this period:
+`C01_fold_keeps_depth_partial` needs its hypothesis -/
 theorem stackSound_needed : ¬ StackSoundAt songU mU bmU := by
   intro hs
   obtain ⟨S', happ, hv⟩ := C01_fold_keeps_depth_partial (subId := 15000)
@@ -1633,5 +1676,36 @@ theorem stackSound_needed : ¬ StackSoundAt songU mU bmU := by
   simp only [Except.map, okv, Option.some.injEq] at h
   rw [hv] at h
   cases h
+
+/-- the map the repaired `analyze_stack` computes for `songU` (marking after the loop over all tracks:
+every later caller raises the base usage of the chain below it; `*30` ends at base usage 10) -/
+def mU2 : SAMap := [(20, { baseUsage := 100, maxUsage := 1, eventList := [1] }),
+  (30, { baseUsage := 10, maxUsage := 0, eventList := [0, 0, 0, 0, 0, 0, 0, 0, 0] }),
+  (21, { baseUsage := 100, maxUsage := 2, eventList := [2] }), (22, { baseUsage := 100, maxUsage := 3, eventList := [3] }),
+  (23, { baseUsage := 100, maxUsage := 4, eventList := [4] }), (24, { baseUsage := 100, maxUsage := 5, eventList := [5] }),
+  (25, { baseUsage := 100, maxUsage := 6, eventList := [6] }), (26, { baseUsage := 100, maxUsage := 7, eventList := [7] }),
+  (27, { baseUsage := 100, maxUsage := 8, eventList := [8] }), (28, { baseUsage := 100, maxUsage := 9, eventList := [9] }),
+  (29, { baseUsage := 100, maxUsage := 10, eventList := [10] })]
+
+/-- **regression of D28 on the repaired model**: with the repaired analysis the period of `bmU` fails the
+stack test (`0 + 10 ≥ max_loop_stack`), so `StackSoundAt` holds of it (its premise is false), the
+candidate is not a `LoopOK` match, and the whole pass finds nothing to do: the song stays as it is — and
+it validates (`D28_witness.1`) -/
+theorem D28_regression : ¬ LoopRoom (getSA mU2 30) 0 ∧ StackSoundAt songU mU2 bmU ∧ ¬ LoopOK songU mU2 bmU ∧
+    okv ((findBestMatch songU mU2 15000).map fun r => (r.1.tracks == songU.tracks, r.2.1.bestScore)) = some (true, 0) := by
+  have hroom : ¬ LoopRoom (getSA mU2 30) 0 := by
+    rintro ⟨u, hu, hlt⟩
+    have : u = 0 := by
+      have h : (getSA mU2 30).eventList[0]? = some 0 := by decide
+      rw [h] at hu
+      exact (Option.some.inj hu).symm
+    subst this
+    revert hlt
+    decide
+  refine ⟨hroom, ?_, ?_, by decide +kernel⟩
+  · intro src _ hall
+    exact absurd (hall 0 (by decide) (by decide)) hroom
+  · intro hok
+    exact hroom (hok.room 0 (by decide) (by decide))
 
 end Ctrmml.C01.Ex2
